@@ -45,17 +45,17 @@ Definition cfg_sane (cfg : config) : bool :=
 (* 1: the route's host= option changes r.Host before addHeaders runs *)
 Definition F_host_rewrite (t : target) (host : str) : bool :=
   negb (beq (rewritten_host t host) host).
-(* 2: Upgrade: Websocket (capital W) goes to the websocket handler, which relies on
-      addHeaders for X-Forwarded-For, but addHeaders only knows "websocket" *)
+(* 2 (REPAIRED by afbb806, no longer a region of the current code): Upgrade: Websocket
+      (capital W) went to the websocket handler, which relies on addHeaders for
+      X-Forwarded-For, but addHeaders only knew "websocket".  The predicate is kept for the
+      refutation theorem about the unrepaired definitions. *)
 Definition F_capital_websocket (hdr : hmap) : bool :=
   beq (hget hdr K_UPGRADE) (bs "Websocket").
 (* 3: ClientIPHeader is exactly "X-Real-Ip" and the client sent one *)
 Definition F_cih_xrealip_forged (cfg : config) (hdr : hmap) : bool :=
   beq (c_clientip cfg) K_XRI && negb (sempty (hget hdr K_XRI)).
-(* 4: (requests that are not "Upgrade: websocket") the client's Connection header names
-      the managed header [k]: httputil.ReverseProxy deletes it after fabio has set it.
-      ("Upgrade: Websocket" requests do not reach ReverseProxy today; they are in region 2
-      anyway and would reach it if that defect were repaired in ServeHTTP.) *)
+(* 4: (requests that do not take the websocket path) the client's Connection header names
+      the managed header [k]: httputil.ReverseProxy deletes it after fabio has set it *)
 Definition F_conn_lists (hdr : hmap) (k : str) : bool :=
   negb (is_ws hdr) && existsb (fun tok => beq (canon_key tok) k) (conn_tokens hdr).
 
@@ -126,9 +126,8 @@ Definition clauses (cfg : config) (hdr : hmap) (peer host : str) (tls : bool)
     (sempty (c_clientip cfg) ||
      (if beq cih K_XFF then negb xff_here || negb (wf_hdr hdr) || cl_xff up peer
       else cl_clientip cfg up peer),
-     expl [(conn cih, 4); (F_cih_xrealip_forged cfg hdr, 3); (beq cih K_XFF && F_capital_websocket hdr, 2)]);
-    (negb xff_here || negb (wf_hdr hdr) || cl_xff up peer,
-     expl [(F_capital_websocket hdr, 2)]);
+     expl [(conn cih, 4); (F_cih_xrealip_forged cfg hdr, 3)]);
+    (negb xff_here || negb (wf_hdr hdr) || cl_xff up peer, None);
     (cl_xri hdr up peer, expl [(conn K_XRI, 4)]);
     (sempty (c_tlsheader cfg) || cl_tls cfg tls up,
      expl [(conn (canon_key (c_tlsheader cfg)), 4)]);
@@ -151,7 +150,7 @@ Definition failing_region (l : list (bool * option N)) : option N :=
 
 (* no region applies to this input at all *)
 Definition no_region (cfg : config) (t : target) (hdr : hmap) (host : str) : bool :=
-  negb (F_host_rewrite t host) && negb (F_capital_websocket hdr) &&
+  negb (F_host_rewrite t host) &&
   negb (F_cih_xrealip_forged cfg hdr) &&
   negb (existsb (F_conn_lists hdr)
          [canon_key (c_clientip cfg); canon_key (c_tlsheader cfg); K_XRI; K_XFP; K_XFPORT; K_XFH; K_FWD]).
